@@ -82,6 +82,15 @@ EXC = {'URLDecodeError': 1, 'UnicodeDecodeError': 2, 'UnicodeEncodeError': 3, 'T
 NAMES = ['a', 'b', 'c', 'one', 'two', 'onetwo', 'on', 'ab', 'A', 'x', 'a b', 'é', 'Québec', '日本', '%41',
          'a%2Fb', '%', '+', 'a:b', 'http:', 'x?y', 'a#b', '~u', '\U0001f600', '@x', 'a@@', ' 1', 'q=1&r', "it's", 'x;y',
          'a\tb', 'ü', '[v]', 'a..b', '...', '.a']
+# names that are NOT in Unicode normal form C, and the composed spelling of each: decomposed accents,
+# singleton decompositions (ANGSTROM SIGN, OHM SIGN, KELVIN SIGN), conjoining Hangul jamo, a compatibility
+# ligature (unchanged by NFC, changed by NFKC), combining marks out of canonical order
+NON_NFC = ['cafe\u0301', '\u212b', '\u2126', '\u212a', '\u1112\u1161\u11ab', 'A\u030a', 'u\u0308x', 'q\u0323\u0307',
+           'q\u0307\u0323', '\ufb01', 'e\u0301', 'n\u0303o']
+NFC_TWIN = {'cafe\u0301': 'caf\xe9', '\u212b': '\xc5', '\u2126': '\u03a9', '\u212a': 'K',
+            '\u1112\u1161\u11ab': '\ud55c', 'A\u030a': '\xc5', 'u\u0308x': '\xfcx', 'q\u0323\u0307': 'q\u0307\u0323',
+            'q\u0307\u0323': 'q\u0323\u0307', '\ufb01': 'fi', 'e\u0301': '\xe9', 'n\u0303o': '\xf1o'}
+NAMES += NON_NFC + ['caf\xe9', '\xc5', '\ud55c']
 BAD_NAMES = ['', '.', '..', 'a/b', '@@v', '@@', '\ud800', '/']
 SCHEMEY = ['http:', 'https:', 'a:b', 'ftp:', 'HTTP:', 'x:', 'http:x', 'mailto:a@b', 'a:', 'http:?q', 'http:#f', 'urn:a:b']
 
@@ -119,6 +128,17 @@ def gen_tree(rng, depth, bad):
         ext = base + rng.choice(['two', 'x', ' b', '%', 'é', '1'])
         if ext not in names:
             names.insert(rng.randrange(len(names) + 1), ext)
+    # both spellings of a name as siblings (canonically equivalent, different code points)
+    if names and rng.random() < 0.25:
+        cands = [n for n in names if n in NFC_TWIN and NFC_TWIN[n] not in names]
+        if cands:
+            base = rng.choice(cands)
+            names.insert(rng.randrange(len(names) + 1), NFC_TWIN[base])
+        elif rng.random() < 0.5:
+            base = rng.choice(NON_NFC)
+            for nm in (base, NFC_TWIN[base]):
+                if nm not in names:
+                    names.insert(rng.randrange(len(names) + 1), nm)
     return [[nm, gen_tree(rng, depth - 1, bad)] for nm in names]
 
 
@@ -251,7 +271,7 @@ def gen_case(rng):
     return {'tree': tree, 'r': r, 'a': a, 'rel': rel, 'rel_str': rel_str, 'els': els, 'vroot': vroot, 'script': script}
 
 
-VOCAB = ['a', 'ab', 'a b', 'é', 'b:']
+VOCAB = ['a', 'ab', 'a b', 'é', 'b:', 'e\u0301']
 
 
 def _forests(n, names):
@@ -670,6 +690,23 @@ def kinds(case, obs):
         ks.append('lineage-non-ascii')
     if any(n in BAD_NAMES for n in names):
         ks.append('lineage-inadmissible')
+    import unicodedata
+    try:
+        if any(unicodedata.normalize('NFC', n) != n for n in names):
+            ks.append('lineage-not-NFC')
+            par = case['tree']
+            for i in case['r']:
+                sibs = [s_ for s_, _ in par]
+                if unicodedata.normalize('NFC', par[i][0]) != par[i][0] and \
+                        any(s_ != par[i][0] and unicodedata.normalize('NFC', s_) == unicodedata.normalize('NFC', par[i][0])
+                            for s_ in sibs):
+                    ks.append('lineage-not-NFC-with-equivalent-sibling')
+                    break
+                par = par[i][1]
+        if any(unicodedata.normalize('NFKC', n) != n for n in names):
+            ks.append('lineage-not-NFKC')
+    except Exception:
+        pass
     o8 = obs[8]
     if isinstance(o8, list) and o8 and o8[0] == 7:
         ks.append('url:' + ('trimmed' if o8[1] != o8[2] else 'untrimmed' if case['vroot'] is not None else 'no-header'))
